@@ -19,6 +19,9 @@ const NAMES: &[&str] = &[
     "basefon", "bgsounds", "sources", "tracks", "wb", "col1", "params", "keygens", "hr1", "imgs", "metas", "links", "embeds", "areas", "bases",
     // integration-point element names: in svg / math context the element ITSELF is foreign
     "desc", "foreignObject", "mi", "mtext", "font",
+    // names with bytes outside [A-Za-z0-9]: control bytes that a careless name hash could fold onto
+    // digits (h\x12 is not h2, a breakout tag), other punctuation
+    "h\u{12}", "h\u{11}x", "a\u{16}", "h2x", "h7", "b\u{1}", "p\u{10}", "br!", "em_", "i:x",
 ];
 const DEEP_NAMES: usize = 5;
 const CONTEXTS: &[(&str, &str, Ns)] = &[
